@@ -25,7 +25,7 @@ EVIDENCE = {
         "for client faults the rule is: if the server closed the socket before application call k returned, call k+1 must not exist",
         "a worker's flush that merely could not send (the peer is gone: send reports 0 bytes) is a hint, not the decision - the I/O thread decides - and is not used as the decision point; "
         "a worker's flush that fails with any other socket error is the decision (the channel marks itself will_close there): the request being served is the last one",
-        "a recv() that fails with such an error on the I/O thread is the decision as soon as the loop is back in its poll: no queued request may start after that",
+        "a recv() that fails with such an error on the I/O thread is the decision as soon as the loop is back in its poll: no request whose task a worker takes from the pool after that may be executed",
     ],
 }
 
@@ -260,7 +260,10 @@ def run_one(tapes, tier, scenario=None):
             if e[2] == "fault" and e[3] == cid and e[4] == "recv" and e[1] == "io" and e[6] not in ("RST", "FIN", "FIN-arrives", "EAGAIN", "EWOULDBLOCK"):
                 back = next((x[0] for x in k.history if x[0] > e[0] and x[1] == "io" and x[2] in ("select", "poll")), None)
                 if back is not None:
-                    after = [c for c in calls if c["begin"] is not None and c["begin"] > back]
+                    # (a worker that had taken the connection's task before that may be past its own check already)
+                    pops = [x[0] for x in k.history if x[2] == "task_pop" and x[3] == cid]
+                    after = [c for c in calls if c["begin"] is not None and c["begin"] > back
+                             and max([q for q in pops if q < c["begin"]] or [0]) > back]
                     if after:
                         res.v("executed_after_recv_error", p["cause"],
                               "conn %d: recv() raised %s at seq %d, the I/O loop was back in its poll at seq %d, yet the application was called at seq %d for %s; lookahead %d" % (
